@@ -173,9 +173,29 @@ def replay(prop, path):
     os.makedirs(wd)
     if path.endswith(".cfgmsgs"):
         out, n, fs, wall = run_cfg(binp, path, wd)
-        nmsg = sum(1 for l in open(path) if l.startswith('"CFG '))
-        fs = [f for f in fs if f["l"] <= nmsg]          # the validator matrix is appended to every run
+        recs = [json.loads(l) for l in open(out)]
+        fs = [f for f in fs if 0 < f["l"] <= len(recs) and recs[f["l"] - 1].get("src", 0) > 0]   # the fixed validator matrix is appended to every run
         for f in fs:
+            print("replay finding:", json.dumps(f)[:400])
+        if fs:
+            print(f"VIOLATION property={prop} replay={path}")
+            return 1
+        print(f"replay of {path}: property {prop} holds on the current tree")
+        return 0
+    base = os.path.basename(path)
+    if "-hookauth-" in base or "-hookvec-" in base:
+        # the derivation / authentication sweeps are deterministic functions of (tier, seed): re-run them on the current tree
+        parts = base.split("-")
+        tier, seed = parts[1], parts[2]
+        if "-hookauth-" in base:
+            vec = os.path.join(wd, "hookauth.ndjson")
+            mwh(binp, ["hookauth", vec])
+            n, fs, wall = small_trace_check("HookAuthTrace", vec, wd)
+        else:
+            vec = os.path.join(wd, "hookvec.ndjson")
+            mwh(binp, ["hookvec", seed, 400 if tier == "quick" else 3000, vec])
+            n, fs, wall = small_trace_check("HookTrace", vec, wd)
+        for f in fs[:8]:
             print("replay finding:", json.dumps(f)[:400])
         if fs:
             print(f"VIOLATION property={prop} replay={path}")
@@ -393,8 +413,8 @@ PLANS = {
     "C08": plan(["gate_q", "own"], GATE_MC + ["own_t"], ["gate_q", "own"], GATE_EMIT + ["own_t"], W_Q, W_T),
     "C09": plan(["gates_q"], GATE_MC, ["gates_q"], GATE_EMIT, W_Q, W_T, scen=["C09"]),
     "C10": plan(["gate_q"], GATE_MC, ["gate_q"], GATE_EMIT, W_Q, W_T),
-    "C11": plan(["flow_q", "flow_treasury_q", "fees_q", "fee150_q"], ["flow_t", "flow_treasury_t", "flow_amounts_t", "fees_t", "fee150_q"],
-                ["flow_treasury_q", "fees_q", "fee150_q"], ["flow_t", "flow_treasury_t", "fees_t", "fee150_q"], W_Q, W_T),
+    "C11": plan(["flow_q", "flow_treasury_q", "fees_q", "fee150_q", "zerolst_q"], ["flow_t", "flow_treasury_t", "flow_amounts_t", "fees_t", "fee150_q", "zerolst_q"],
+                ["flow_treasury_q", "fees_q", "fee150_q", "zerolst_q"], ["flow_t", "flow_treasury_t", "fees_t", "fee150_q", "zerolst_q"], W_Q, W_T),
     "C12": plan(["own"], ["own_t"], ["own"], ["own_t"], [("admin", 10, 60)], [("admin", 150, 70)]),
     "C13": plan(["treasury_q", "flow_treasury_q"], ["treasury_t", "flow_treasury_q"], ["treasury_q", "flow_treasury_q"], ["treasury_t", "flow_treasury_q"], [], []),
     "C14": plan(["gates_q"], ["gateadmin_t"], [], ["gateadmin_t"], [("admin", 8, 60)], [("admin", 100, 70)]),
@@ -403,9 +423,9 @@ PLANS = {
     "C16": plan(["flow_q", "gates_q"], FLOW_MC + IBC_MC + GATE_MC, ["flow_treasury_q", "ibc_q", "gates_q", "own", "treasury_q"],
                 ["flow_t", "flow_treasury_t", "flow_extras_t", "ibc2_t", "gate_q", "gateadmin_t", "own_t", "treasury_q"], W_Q, W_T,
                 wide={"quick": [(30, 60, 0), (30, 60, 1)], "thorough": [(400, 80, 0), (400, 80, 1)]}),
-    "C17": plan(["flow_q"], ["flow_t"], [], [], [("chaos", 6, 60)], [("chaos", 60, 70)]),
+    "C17": plan(["flow_q"], ["flow_t"], ["flow_q"], ["flow_t"], [("chaos", 6, 60)], [("chaos", 60, 70)]),
     "C18": plan(["ibc_q"], IBC_MC, [], [], [], [], scen=["C18"]),
-    "C19": plan(["flow_q"], ["flow_t"], ["flow_q"], ["flow_t"], [("chaos", 8, 60)], [("chaos", 100, 70)]),
+    "C19": plan(["flow_q", "limits1_q"], ["flow_t", "limits1_q"], ["flow_q", "limits1_q"], ["flow_t", "limits1_q", "limits_q"], [("chaos", 8, 60)], [("chaos", 100, 70)]),
 }
 LEVEL = "model_checking"
 
@@ -427,7 +447,9 @@ REQUIRED = {
             ("receive_rewards", "refused")],
     "C11": [("receive_rewards", "ok"), ("receive_rewards", "refused"), ("fee_withdraw", "ok"), ("fee_withdraw", "refused"), ("update_config", "ok")],
     "C12": [("transfer_ownership", "ok"), ("accept_ownership", "ok"), ("accept_ownership", "refused"), ("revoke_ownership_transfer", "ok"),
-            ("t_transfer_ownership", "ok"), ("t_accept_ownership", "ok"), ("t_accept_ownership", "refused")],
+            ("t_transfer_ownership", "ok"), ("t_accept_ownership", "ok"), ("t_accept_ownership", "refused"),
+            # the interleaved other operations of OwnershipMC.tla (Interfere) must really have run
+            ("resume_contract", "ok"), ("circuit_breaker", "ok"), ("update_config", "ok"), ("migrate_roundtrip", "ok"), ("t_update_config", "ok"), ("t_spend", "ok")],
     "C13": [("t_swap_in", "ok"), ("t_swap_in", "refused"), ("t_swap_out", "ok"), ("t_spend", "ok"), ("t_spend", "refused"), ("t_update_config", "refused")],
     "C15": [("liquid_stake", "ok"), ("submit_batch", "ok"), ("receive_rewards", "ok"), ("resume_contract", "ok")],
 }
@@ -638,6 +660,19 @@ def hook_c09(binp, tier, seed, wd):
     extra["derivation_findings"] = len(fs)
     if fs:
         viols.append(("hookvec", hv, fs[0]))
+    ha = os.path.join(wd, "hookauth.ndjson")
+    mwh(binp, ["hookauth", ha])
+    n2, fs2, wall = small_trace_check("HookAuthTrace", ha, wd)
+    acc = sum(1 for l in open(ha) if json.loads(l)["accepted"])
+    log(f"[hook] {n2} deliveries offered under every stored (prefix, channel) the contract accepts: {acc} accepted, "
+        f"{n2 - acc} refused, {len(fs2)} findings ({wall:.1f}s)")
+    extra["auth_attempts"] = n2
+    extra["auth_accepted"] = acc
+    extra["auth_findings"] = len(fs2)
+    if acc == 0 or acc == n2:
+        raise ToolError("hookauth: vacuous (no delivery accepted / none refused)")
+    if fs2:
+        viols.append(("hookauth", ha, fs2[0]))
     cfg = os.path.join(wd, "HookLemma.cfg")
     open(cfg, "w").write(f"SPECIFICATION Spec\nCONSTANT MaxLen = {3 if tier == 'quick' else 4}\nINVARIANT Unambiguous\nCHECK_DEADLOCK FALSE\n")
     rc, out, wall = tlc(os.path.join(SPEC, "HookLemma.tla"), cfg, wd, workers=4, timeout=900)
@@ -723,6 +758,7 @@ def hook_c14(binp, tier, seed, wd):
     extra, viols = {}, []
     msgs = cfg_messages(tier, wd)
     nm = int(subprocess.run(["grep", "-c", '^"CFG ', msgs], stdout=subprocess.PIPE, text=True).stdout.strip() or 0)
+    extra["validator_sequences_enumerated_by_tlc"] = int(subprocess.run(["grep", "-c", '^"VSEQ ', msgs], stdout=subprocess.PIPE, text=True).stdout.strip() or 0)
     out, n, fs, wall = run_cfg(binp, msgs, wd)
     stats = {}
     for ln in open(out):
@@ -736,11 +772,12 @@ def hook_c14(binp, tier, seed, wd):
     log(f"[config] {nm} TLC-enumerated messages + validator matrix executed on the real contract ({stats}); ConfigTrace: {len(fs)} findings ({wall:.1f}s)")
     if fs:
         # replay file = the abstract messages of the offending records
-        lines = [l for l in open(msgs) if l.startswith('"CFG ')]
-        bad_idx = sorted({f["l"] for f in fs if f["l"] <= len(lines)})
+        lines = open(msgs).read().splitlines(keepends=True)
+        recs = [json.loads(l) for l in open(out)]
+        srcs = sorted({recs[f["l"] - 1].get("src", 0) for f in fs if 0 < f["l"] <= len(recs)} - {0})
         rp = os.path.join(wd, "offending.cfgmsgs")
         with open(rp, "w") as f:
-            for i in bad_idx[:20]:
+            for i in srcs[:20]:
                 f.write(lines[i - 1])
         viols.append(("config", rp, fs[0]))
     return extra, viols
